@@ -1,9 +1,21 @@
 //! C01: whole-engine end-to-end runs of random pipelines (see `nvh::e2e`).
-//! header: `e2e <config> <batchmode>`; ops: `n <id> <kind> …` (the job), optional `tag <t>`;
+//! header: `e2e <config> <batchmode>`; ops: `n <id> <kind> …` (the job);
 //! outputs: `sink <id> <sorted list>` per sink | `panic:<class>` | `blocked` | `infra`.
+//! `--kbin`: every job contains the keyed-binary gadget (two keyed streams built by possibly
+//! different co-partitioning code paths, combined by a forward keyed join / merge) — used by C03.
 use nvh::e2e::*;
 
 fn main() {
-    let opts = GenOpts { limited_forward: std::env::var("NVH_E2E_NO_LIMFWD").is_err(), ..GenOpts::default() };
-    run_main_par(move |seed, n| gen_cases(seed, n, opts), exec_case, 6);
+    run_main_par(
+        |seed, n, extra| {
+            let opts = GenOpts {
+                limited_forward: std::env::var("NVH_E2E_NO_LIMFWD").is_err(),
+                kbin_every: if extra.iter().any(|a| a == "--kbin") { 1 } else { GenOpts::default().kbin_every },
+                ..GenOpts::default()
+            };
+            gen_cases(seed, n, opts)
+        },
+        exec_case,
+        6,
+    );
 }
